@@ -16,6 +16,7 @@ Decides:
                 (found and fixed: `-ñ=v`); the width helper itself is evaluated as a TABLE over lead bytes (UTF-8: 1/2/3/4).
  E equals value  once split_os_argument has seen `=` every result carries a value part (the empty one for `--name=`); a result without a
                 value part is built only where the input ended before any `=` (so `--name=` never takes the NEXT item as its value).
+ N name lists    short()/long() and their method forms put the name into the list of its own kind; command names likewise (wiring table).
 Does not decide: that split_os_argument as a whole is a correct transducer for every byte string."""
 import re
 from core import *
@@ -28,7 +29,7 @@ import consumers, c12, c04, walkers
 LEVEL = 'other'
 EXPLANATION = __doc__
 ASSUMPTIONS = ['FromStr implementations of the target types are the user\'s']
-FLOORS = {'R.registry': 17, 'V.value-slot': 9, 'L.lossless': 10, 'D.cluster-table': 4, 'B.boundaries': 6}
+FLOORS = {'R.registry': 17, 'V.value-slot': 9, 'L.lossless': 10, 'D.cluster-table': 4, 'B.boundaries': 6, 'N.name-lists': 8}
 
 LOSSY = [r'to_string_lossy$', r'from_utf8_lossy$', r'str::<impl str>::(trim\w*|to_lowercase|to_uppercase|to_ascii_lowercase|to_ascii_uppercase|replace|replacen)$', r'make_ascii_(lower|upper)case$']
 LOSSY_OK = {
@@ -52,6 +53,8 @@ def run(ctx):
         ctx.guard(lossless, ctx, cfg, fs)
         ctx.guard(cluster_table, ctx, cfg, fs)
         ctx.guard(boundaries, ctx, cfg, fs)
+        import wiring
+        ctx.guard(wiring.builders, ctx, cfg, fs, 'N.name-lists', r'^(short|long|params::NamedArg::(short|long)|params::ParseCommand::<P>::(short|long)|command|params::<impl info::OptionParser<T>>::command|params::ParseArgument::<T>::adjacent|params::build_argument|params::NamedArg::argument)$')
 
 def registry(ctx, cfg, fs):
     c12.walker_rules(ctx, cfg, fs, 'R.registry', {'collect_shorts': c12.WALKERS['collect_shorts']})
